@@ -67,7 +67,7 @@ impl Prop for C14 {
         ]
     }
     fn random_cases(tier: Tier) -> u64 {
-        tier.pick(6_000, 100_000)
+        tier.pick(6_000, 2_000_000)
     }
     fn strategy(_tier: Tier) -> BoxedStrategy<Case> {
         let path = (proptest::collection::vec(component(), 1..=4), any::<bool>()).prop_map(|(c, slash)| {
